@@ -52,13 +52,17 @@ ApplyFn(e) ==
     [] e.op = "ge_ops" ->
          LET p == SMulB(Sc(e.p))   q == SMulB(Sc(e.q))
              d == Encode(PDouble(p))   s == Encode(PAdd(p, q))   m == Encode(PAdd(p, PNeg(q)))
-         IN V(d \o d \o d \o d \o d \o d \o s \o s \o m \o m)
+             dd == PDouble(p)
+         IN V(d \o d \o d \o d \o d \o d \o s \o s \o m \o m \o Encode(PAdd(q, dd)) \o Encode(PAdd(q, PNeg(dd))) \o Encode(PDouble(dd)))
 \* field-expression programs: registers hold canonical values; every step returns the canonical bytes of its result
 ApplyFe(s, e) ==
   LET a == IF Has(e, "a") THEN s[e.a] ELSE FZero
       b == IF Has(e, "b") THEN s[e.b] ELSE FZero
       put(v) == [st |-> [s EXCEPT ![e.d] = v], out |-> V(ToBytes(v))]
   IN CASE e.op = "from_bytes" -> put(FromBytes(e.bytes))
+       [] e.op = "add_v" -> put(FAdd(a, b))                \* the by-value operators of the 32-bit back-end: the same operations
+       [] e.op = "sub_v" -> put(FSub(a, b))
+       [] e.op = "mul_v" -> put(FMul(a, b))
        [] e.op = "add" -> put(FAdd(a, b))
        [] e.op = "sub" -> put(FSub(a, b))
        [] e.op = "neg" -> put(FNeg(a))
